@@ -87,7 +87,7 @@ Definition calls {L} (mk : list item -> list obs -> L) (l : list item) (ret : li
 
 (* ======================================================================= *)
 (* Disposable, BooleanDisposable                                            *)
-Inductive dlocal := DL_lock | DL_action | DL_store | DL_query.
+Inductive dlocal := DL_lock | DL_action | DL_query.
 
 (* Disposable.dispose:  [LOCK; CALL self.action] *)
 Definition dd_start (o : dop) : dlocal := match o with DDispose => DL_lock | DIsDisposed => DL_query end.
@@ -95,11 +95,17 @@ Definition dd_act (s : dstate) (l : dlocal) : dstate * option dlocal * list obs 
   match l with
   | DL_lock => if negb s then (true, Some DL_action, []) else (s, None, [])
   | DL_action => (s, None, [ORun])
-  | DL_store => (true, None, [])
   | DL_query => (s, None, [OBool s])
   end.
+
 (* BooleanDisposable.dispose:  [W:is_disposed] *)
-Definition bd_start (o : dop) : dlocal := match o with DDispose => DL_store | DIsDisposed => DL_query end.
+Inductive blocal := BL_store | BL_query.
+Definition bd_start (o : dop) : blocal := match o with DDispose => BL_store | DIsDisposed => BL_query end.
+Definition bd_act (s : dstate) (l : blocal) : dstate * option blocal * list obs :=
+  match l with
+  | BL_store => (true, None, [])
+  | BL_query => (s, None, [OBool s])
+  end.
 
 (* ======================================================================= *)
 (* CompositeDisposable                                                      *)
@@ -120,10 +126,11 @@ Definition cc_start (o : cop) : clocal :=
 
 Definition cc_act (s : cstate) (l : clocal) : cstate * option clocal * list obs :=
   match l with
-  | CL_read o =>
-      if c_disposed s
-      then (s, None, match o with CRemove _ => [OBool false] | _ => [] end)
-      else (s, Some (CL_lock o), [])
+  | CL_read (CRemove i) =>
+      if c_disposed s then (s, None, [OBool false]) else (s, Some (CL_lock (CRemove i)), [])
+  | CL_read CDispose =>
+      if c_disposed s then (s, None, []) else (s, Some (CL_lock CDispose), [])
+  | CL_read _ => (s, None, [])                                 (* not reachable *)
   | CL_lock (CAdd i) =>
       if c_disposed s then (s, Some (CL_calls [i] []), [])
       else (CState (c_items s ++ [i]) (c_disposed s), None, [])
@@ -139,7 +146,11 @@ Definition cc_act (s : cstate) (l : clocal) : cstate * option clocal * list obs 
   | CL_calls [] ret => (s, None, ret)                          (* not reachable *)
   | CL_calls (i :: r) ret =>
       let '(l', out) := calls CL_calls r ret in (s, l', ODisp i :: out)
-  | CL_query o => (s, None, snd (c_step s o))
+  | CL_query o =>
+      (s, None, match o with
+                | CContains _ | CLen | CToList | CIsDisposed => snd (c_step s o)
+                | _ => []                                      (* not reachable *)
+                end)
   end.
 
 (* ======================================================================= *)
@@ -229,9 +240,10 @@ Definition s0_act (truthy : item -> bool) (s : sstate) (l : s0local) : sstate * 
 (* ScheduledDisposable with a scheduler whose queued actions are run by
    (any number of) worker threads.
    dispose: [CALL scheduler.schedule]        run one queued action: [pop; LOCK (inner.dispose); CALL] *)
-Inductive schlocal := HL_sched | HL_pop | HL_lock | HL_calls (l : list item) (ret : list obs) | HL_query.
+Inductive schlocal := HL_sched | HL_pop | HL_lock | HL_calls (l : list item) | HL_query.
 Definition hc_start (o : schop) : schlocal :=
   match o with SchDispose => HL_sched | SchRunOne => HL_pop | SchIsDisposed => HL_query end.
+Definition hl_calls (l : list item) (_ : list obs) : schlocal := HL_calls l.
 Definition hc_act (s : schstate) (l : schlocal) : schstate * option schlocal * list obs :=
   match l with
   | HL_sched => (SchState (sch_inner s) (S (sch_queue s)), None, [OSched])
@@ -242,10 +254,10 @@ Definition hc_act (s : schstate) (l : schlocal) : schstate * option schlocal * l
   | HL_lock =>
       let i := sch_inner s in
       if s_disposed i then (s, None, [])
-      else let '(l', out) := calls HL_calls (opt_list (s_cur i)) [] in
+      else let '(l', out) := calls hl_calls (opt_list (s_cur i)) [] in
            (SchState (SState None true) (sch_queue s), l', out)
-  | HL_calls [] ret => (s, None, ret)
-  | HL_calls (i :: r) ret => let '(l', out) := calls HL_calls r ret in (s, l', ODisp i :: out)
+  | HL_calls [] => (s, None, [])
+  | HL_calls (i :: r) => let '(l', out) := calls hl_calls r [] in (s, l', ODisp i :: out)
   | HL_query => (s, None, [OBool (s_disposed (sch_inner s))])
   end.
 
